@@ -43,7 +43,7 @@ FAMILIES = {
         bounds={"Secrets": ["r0", "r1", "r2"], "Duration": 2678400, "|L|": "<= 4", "|granted|": "<= 4", "integers": "unbounded"},
         properties=["Honoured (no backdating: every expiry ever promised is still honoured)", "NoSecondLease (an add with a known renew secret adds no second lease)",
                     "MonotoneStep (Storage.tla's LeasesMonotone on every step)"],
-        proof="LeasesProof", proof_theorems=["Inductive: Spec => []IndInv", "NoBackdating: Spec => []Honoured",
+        proof="LeasesProof", tlaps_prio=25, proof_theorems=["Inductive: Spec => []IndInv", "NoBackdating: Spec => []Honoured",
                                              "AtMostOneLeasePerSecret: Spec => []NoSecondLease", "NoBackdatingStep: Spec => [][MonotoneStep]_vars"],
         agree="AgreeLeases",
         agree_cfg=("SPECIFICATION ASpec\nCONSTANTS\n  RS = {\"r0\", \"r1\"}\n  CS = {\"c0\", \"c1\"}\n  Clocks = %(clocks)s\n  MaxGranted = 4\n"
@@ -57,7 +57,7 @@ FAMILIES = {
         apa="MC_Serializer_apa", indinv="IndInvA", props="Props", action=None,
         bounds={"Ids": "1..5", "Len(queue), Len(reqd), Len(started)": "<= 4 (5 after the step)", "integers": "unbounded"},
         properties=["Mutex (at most one operation in progress)", "FIFO (operations start in request order)", "ReturnAfterFinish"],
-        proof="SerializerProof", tlaps_quick=True,
+        proof="SerializerProof", tlaps_prio=73,
         proof_theorems=["Inductive: Spec => []MInv", "MutualExclusion: Spec => []Mutex", "FifoInductive: Spec => []FInv", "StartInRequestOrder: Spec => []FIFO"],
         agree="AgreeSerializer",
         agree_cfg=("SPECIFICATION AgSpec\nCONSTANTS\n  N = %(N)s\n  Faulty = %(Faulty)s\nINVARIANT GuardsAgree\nINVARIANT CoreIndInv\nINVARIANT CoreMutex\n"
@@ -72,7 +72,7 @@ FAMILIES = {
                 "sequence numbers": "unbounded integers"},
         properties=["NeverOlder (an older announcement never replaces a newer one)", "Monotone (Introducer.tla's MonotoneStep on every step)",
                     "Authentic (stored entries came with a verifying signature)", "SubscribedOnly"],
-        proof="IntroducerProof", proof_theorems=["Inductive: Spec => []NInv", "OlderNeverReplacesNewer: Spec => []NeverOlder", "MonotoneSteps: Spec => [][Monotone]_vars"],
+        proof="IntroducerProof", tlaps_prio=71, proof_theorems=["Inductive: Spec => []NInv", "OlderNeverReplacesNewer: Spec => []NeverOlder", "MonotoneSteps: Spec => [][Monotone]_vars"],
         agree="AgreeIntroducer",
         agree_cfg=("SPECIFICATION Spec\nCONSTANTS\n  Keys = {\"k1\", \"k2\"}\n  Services = %(Services)s\n  Subs0 = {\"storage\"}\n  MaxSeq = %(MaxSeq)s\n"
                    "  Bodies = {\"a\", \"b\"}\n  MaxBatch = 1\n  MaxStep = 1\n  LateSubscribe = TRUE\nINVARIANT TypeOK\nINVARIANT OperatorsAgree\n%(fold)s"
@@ -102,7 +102,7 @@ FAMILIES = {
         apa="MC_GridManager_apa", apa_queries=[("clauses", "AnyState", "Clauses", 0, True)],
         bounds={"|keys|": "<= 3", "|certs|": "<= 4", "signer / subject / tamper": "any strings", "times": "unbounded integers"},
         properties=["Exact", "BadCertsIrrelevant", "NoKeysPermitsAll", "ExpiryMonotone", "MoreCertsNeverRevoke (the clauses of C33)"],
-        proof="GridManagerProof", proof_theorems=["ClausesHold: TypeOK => Clauses", "Always: Spec => []Clauses"],
+        proof="GridManagerProof", tlaps_prio=72, proof_theorems=["ClausesHold: TypeOK => Clauses", "Always: Spec => []Clauses"],
         agree="AgreeGridManager",
         agree_cfg=("SPECIFICATION GSpec\nCONSTANTS\n  Signers = {\"gm1\", \"gm2\"}\n  Configurable = {\"gm1\", \"gm2\"}\n  Subjects = {\"self\", \"other\"}\n"
                    "  Expiries = {10, 20}\n  Nows = %(Nows)s\n  MaxCerts = 2\nINVARIANT OperatorsAgree\nINVARIANT ClausesAgree\nINVARIANT CoreClauses\nCHECK_DEADLOCK FALSE\n"),
@@ -266,8 +266,9 @@ def run(ctx):
     shutil.copytree(PROOFS, os.path.join(work, "proofs"), ignore=shutil.ignore_patterns("tmp", ".tlacache", "*.cfg"))
     ctx.rule = ("one evaluation = one tool query (Apalache base / step / control, tlapm proof / control) or one TLC agreement run; "
                 "non-trivial = the query was answered (proved, or a control refuted). Quick tier: the queries are started in a fixed "
-                "priority order (the TLAPS proof of the serializer; per family one Apalache query for base case + induction step, then its "
-                "negative control; the TLC agreement runs with small constants; the other TLAPS proofs) until a time budget of %d s is used up; what did not "
+                "priority order (for Leases, Serializer, Introducer: one Apalache query for base case + induction step, its negative control; "
+                "the TLAPS proof of the leases; their TLC agreement runs with small constants; then the same for Crawler and GridManager; "
+                "then the TLAPS proofs of introducer, grid manager, serializer) until a time budget of %d s is used up; what did not "
                 "fit is listed as NOT RUN. Thorough: base and step as separate queries, every TLAPS proof, every control (also of the TLAPS proofs), "
                 "larger agreement runs." % budget)
     if quick:
@@ -330,21 +331,20 @@ def run(ctx):
         if F.get("apa"):
             cmod = make_control(work, F["apa"], F["core"], F["broken"])
             for qn, (q, init, inv, length, has_control) in enumerate(apa_queries(F, quick)):
-                add((10 if has_control else 60) + n, 1, 25, fam, q, "apalache", False,
+                add(((10 if n < 3 else 44) + 2 * n) if has_control else (80 + n), 1, 25, fam, q, "apalache", False,
                     lambda t, F=F, fam=fam, q=q, init=init, inv=inv, length=length: apalache(work, F["apa"], init, inv, length, "%s_%s" % (fam, q), min(t, per_job)),
                     module=F["apa"] + ".tla", init=init, invariant=inv, length=length, bounds=F["bounds"])
                 if has_control:
-                    add(20 + n, 1, 25, fam, q, "apalache", True,
+                    add((11 if n < 3 else 45) + 2 * n, 1, 25, fam, q, "apalache", True,
                         lambda t, fam=fam, q=q, init=init, inv=inv, length=length, cmod=cmod: apalache(work, cmod, init, inv, length, "%s_%s_control" % (fam, q), min(t, per_job)),
                         module=cmod + ".tla (generated: %s with %s)" % (F["apa"], F["broken"]), init=init, invariant=inv, length=length, bounds=F["bounds"])
         if F["proof"]:
-            first = quick and F.get("tlaps_quick")
-            add((5 if first else 40) + n, 2, 45 if first else 25, fam, "tlaps", "tlapm", False,
+            add(F["tlaps_prio"], 2, 25, fam, "tlaps", "tlapm", False,
                 lambda t, F=F, fam=fam: tlapm(work, F["proof"], fam, min(t, per_job * 2), 2),
                 module=F["proof"] + ".tla", invariant="; ".join(F["proof_theorems"]), bounds="none (unbounded)")
             if not quick:
                 pmod = make_control(work, F["proof"], F["core"], F["broken"])
-                add(80 + n, 2, 60, fam, "tlaps", "tlapm", True,
+                add(90 + n, 2, 60, fam, "tlaps", "tlapm", True,
                     lambda t, F=F, fam=fam, pmod=pmod: tlapm(work, pmod, fam + "_control", min(t, per_job * 2), 1),
                     module=pmod + ".tla (generated: %s with %s)" % (F["proof"], F["broken"]), invariant="; ".join(F["proof_theorems"]),
                     bounds="none (unbounded)")
@@ -356,7 +356,7 @@ def run(ctx):
                 return {"cmd": "TLC %s.tla" % F["agree"], "wall_s": round(time.time() - w0, 1), "rc": 0,
                         "verdict": "proved" if not r.violated else "refuted", "states": r.states,
                         "detail": "%d distinct states, violated: %s" % (r.states, r.violated or "nothing")}
-            add(30 + n, 1, 30, fam, "agree", "tlc", False, agree, module=F["agree"] + ".tla", invariant="see the cfg in check.py", bounds=consts)
+            add((30 if n < 3 else 56) + n, 1, 30, fam, "agree", "tlc", False, agree, module=F["agree"] + ".tla", invariant="see the cfg in check.py", bounds=consts)
 
     jobs.sort()
     failures = []
